@@ -27,6 +27,9 @@ def run(chk):
 
 
 def structural(chk):
+    # a failure of a path rule is reported only for a path whose guards ALL evaluate under the valuation (a guard over a helper property or a
+    # state the valuation does not know makes the path indefinite -> no verdict from this rule; the play-outs and folds decide)
+    chk.strict_guards = True
     P = Playing(chk, 'C04')
     f, repo = P.f, chk.repo
     chk.explanation = (
